@@ -113,6 +113,8 @@ TOPO = {
     "t3": dict(_COMMON, devices={"bd_trough": _TROUGH, "bd_plunger": _PLUNGER,
                                  "bd_saucer": {"switches": ["s_saucer"], "coil": "c_saucer", "target": "playfield", "eject_timeout": 2.0,
                                                "shot": True}}, balls={"bd_trough": 2}),
+    # a ball save that returns saved balls after an eject delay
+    "t8": dict(_COMMON, devices={"bd_trough": _TROUGH, "bd_plunger": _PLUNGER}, balls={"bd_trough": 2}),
     # two sources (trough and VUK) feed the one-ball plunger lane
     "t7": dict(_COMMON, devices={"bd_trough": _TROUGH, "bd_plunger": _PLUNGER,
                                  "bd_vuk": {"switches": ["s_vuk"], "coil": "c_vuk", "target": "bd_plunger", "eject_timeout": 3.0,
@@ -135,13 +137,14 @@ SCRIPTS = {
     "stale-lock-request": ("t2b", None, [["event", "release_lock"], ["start"], ["add"], ["add"], ["drain"], ["drain"], ["drain"]]),
     "held-balls": ("t6", None, [["start"], ["shoot", "bd_lock"], ["add"], ["shoot", "bd_lock"], ["add"], ["shoot", "bd_lock"],
                                 ["event", "release_hold"], ["drain"], ["drain"], ["drain"]]),
+    "ball-save": ("t8", None, [["start"], ["add"], ["drain"], ["drain"]]),
     "vuk-to-plunger": ("t7", None, [["start"], ["add"], ["shoot", "bd_vuk"], ["drain"], ["drain"]]),
     "two-attempts": ("t1", {"ball_devices": {"bd_plunger": {"max_eject_attempts": 2}}}, [["start"], ["drain"]]),
 }
 DEEP_SCRIPTS = ("one-ball-game", "mechanical-plunger", "two-attempts", "lock-shot", "saucer-shot")
 LONG_SCRIPTS = ("over-request", "stale-lock-request", "held-balls")
 QUICK_SCRIPTS = ("one-ball-game", "two-balls-in-play", "mechanical-plunger", "lock-shot", "saucer-shot", "plunger-lane-return",
-                 "over-request", "outhole", "full-trough", "stale-lock-request", "held-balls", "vuk-to-plunger")
+                 "over-request", "outhole", "full-trough", "stale-lock-request", "held-balls", "vuk-to-plunger", "ball-save")
 MAX_REST_STEPS = 400
 
 
@@ -179,6 +182,9 @@ class BallDriver:
         self.m.events.add_handler("ball_started", self._on_ball_started)
         self.drains_seen = 0
         self.m.events.add_handler("ball_drain", self._on_ball_drain, priority=100000)
+        self.saved = 0
+        for bs in [b.name for b in getattr(self.m, "ball_saves", {}).values()] if hasattr(getattr(self.m, "ball_saves", {}), "values") else []:
+            self.m.events.add_handler("ball_save_%s_saving_ball" % bs, self._on_saving_ball)
         for d in self.w.dev:
             for e in ("ball_eject_failed", "ball_eject_success", "broken", "ball_missing"):
                 self.m.events.add_handler("balldevice_%s_%s" % (d, e), self._on_ev, _n="%s_%s" % (d, e))
@@ -193,6 +199,10 @@ class BallDriver:
 
     def _on_ball_started(self, **kwargs):
         self.requested += 1
+
+    def _on_saving_ball(self, balls=0, **kwargs):
+        self.saved += balls             # a saved ball is promised back to the playfield
+        self.stat("balls_saved", balls)
 
     def _on_ball_drain(self, balls=0, **kwargs):
         self.drains_seen += balls
@@ -449,7 +459,7 @@ class BallDriver:
         if self.m.game is not None and not broken and not waiting_for_player:
             # requests: one per ball start plus the added ones; a request beyond the balls of the machine waits for a drain;
             # only drains MPF has recognised end a request (a drain it took for a returning ball is simply served again)
-            want = min(self.requested + self.adds - self.drains_seen, w.total)
+            want = min(self.requested + self.adds - self.drains_seen + self.saved, w.total)
             held = sum(w.at[n] for n, c in self.w.dev.items() if c.get("holds"))     # a ball a ball_hold keeps is where it should be
             if w.loose + waiting_for_player + held < want:
                 desc = desc or self.describe()
